@@ -10,6 +10,7 @@ import (
 	"os"
 	"path/filepath"
 	"reflect"
+	"regexp"
 	"sort"
 	"strconv"
 	"strings"
@@ -241,7 +242,48 @@ func genProgramText(r *prng, st map[string]int) string {
 var parseTokens = []string{"if ", "for ", "range ", ":= ", "== ", "<= ", "{", "}", "} else {", "(", ")", "|", ".", ",", ";", "?", ":", `"`, "'", " ", "\t", "\n", "\r\n",
 	"case ", "default:", "switch ", "break", "lazybreak 2", "continue", " as ", "ctx.", "obj.Id", "jso.a", "probe(", "crc32(", "i++", "i--", "= ", "//", "#", ".{", "x", "5", "é", "\xff"}
 
+var reCmpOp = regexp.MustCompile(`==|!=|>=|<=|>|<|:=|\?|:`)
+
+// dropOperand removes the operand (the run of non-blank bytes) before or after
+// one comparison / assignment / ternary operator of the text, or the operator
+// itself: `if == 1 {`, `if x >  {`, `obj.Id = == 1 ? a : b`, `for i := ; i < 3; i++ {`
+func dropOperand(r *prng, src []byte) []byte {
+	locs := reCmpOp.FindAllIndex(src, -1)
+	if len(locs) == 0 {
+		return src
+	}
+	l := locs[r.intn(len(locs))]
+	s := append([]byte(nil), src...)
+	switch r.intn(3) {
+	case 0: // left operand
+		j := l[0]
+		for j > 0 && (s[j-1] == ' ' || s[j-1] == '\t') {
+			j--
+		}
+		i := j
+		for i > 0 && s[i-1] != ' ' && s[i-1] != '\t' && s[i-1] != '\n' {
+			i--
+		}
+		return append(s[:i:i], s[j:]...)
+	case 1: // right operand
+		i := l[1]
+		for i < len(s) && (s[i] == ' ' || s[i] == '\t') {
+			i++
+		}
+		j := i
+		for j < len(s) && s[j] != ' ' && s[j] != '\t' && s[j] != '\n' && s[j] != '{' {
+			j++
+		}
+		return append(s[:i:i], s[j:]...)
+	default: // the operator
+		return append(s[:l[0]:l[0]], s[l[1]:]...)
+	}
+}
+
 func mutateText(r *prng, src []byte) []byte {
+	if r.chance(1, 4) {
+		return dropOperand(r, src)
+	}
 	s := append([]byte(nil), src...)
 	for k, n := 0, 1+r.intn(3); k < n; k++ {
 		if len(s) == 0 {
@@ -366,7 +408,10 @@ func init() {
 		}
 		// corpus: pre-repair witnesses
 		for _, s := range []string{"}\n", "} else {\n", "x", "if jso.n == 5 {\nprobe(1)\n}", "", " \n\t", "for i := 0; i < 3; i++ {\n} else {\n}\n", "switch jso.s {\n} else {\n}\n",
-			"if x == 1 {\n", "for k, v := range jso.a {\nprobe(k)\n", "switch jso.s {\ncase 1:\n", "nosuchfn(1)\n", "obj.Id = nosuchgetter(jso.a)\n", "obj.Id = jso.a|nosuchmod()\n"} {
+			"if x == 1 {\n", "for k, v := range jso.a {\nprobe(k)\n", "switch jso.s {\ncase 1:\n", "nosuchfn(1)\n", "obj.Id = nosuchgetter(jso.a)\n", "obj.Id = jso.a|nosuchmod()\n",
+			"if == 1 {\nprobe(1)\n}\n", "if  <= jso.n {\n}\n", "if >5{\n}\n", "obj.Id = == 1 ? jso.a : jso.b\n", "if jso.n == {\n}\n", "if jso.n  1 {\n}\n",
+			"for i := ; i < 3; i++ {\n}\n", "for i := 0; i < ; i++ {\n}\n", "for := range jso.a {\n}\n", "switch {\ncase == 1:\nprobe(1)\n}\n", "switch {\ncase jso.n >:\n}\n",
+			"obj.Id = jso.n == 1 ? : jso.b\n", "obj.Id = jso.n == 1 ? jso.a :\n", "if x, ok := (jso.a); ok {\n}\n", "if , ok := okh(jso.a); ok {\n}\n"} {
 			must := strings.Contains(s, "else") || strings.HasPrefix(s, "}") || strings.HasSuffix(s, "{\n") || strings.Contains(s, "nosuchfn") || strings.Contains(s, "nosuchgetter") ||
 				(strings.Contains(s, "range") && !strings.HasSuffix(s, "}\n")) || strings.HasSuffix(s, "case 1:\n")
 			add("corpus", []byte(s), must)
@@ -537,6 +582,10 @@ func r2len(r *prng) int {
 // tabs, 4 blank lines, 8 CRLF, 16 trailing ';' after simple statements, 32
 // whole-line // comments, 64 whole-line # comments, 128 blanks at the end of
 // lines, 256 no final newline.
+// whole-line comments may say anything, including what looks like code
+var commentTexts = []string{"a comment without braces or semicolons", "another comment", "if v.price > 100 {", "for i := 0", "was for k, v := range jso.a {",
+	"default:", "case 5:", "switch x {", "} else {", "}", "x = 1", "probe(1)", "TODO: drop this if it is unused", "break", "obj.Id = jso.{a|b}"}
+
 func applyLayout(r *prng, text string, mask int) []byte {
 	lines := strings.Split(strings.TrimRight(text, "\n"), "\n")
 	nl := "\n"
@@ -553,10 +602,10 @@ func applyLayout(r *prng, text string, mask int) []byte {
 			sb.WriteString(nl)
 		}
 		if mask&32 != 0 && r.chance(1, 4) {
-			sb.WriteString("// a comment without braces or semicolons" + nl)
+			sb.WriteString("// " + pick(r, commentTexts) + nl)
 		}
 		if mask&64 != 0 && r.chance(1, 4) {
-			sb.WriteString("# another comment" + nl)
+			sb.WriteString("# " + pick(r, commentTexts) + nl)
 		}
 		ind := ""
 		if mask&1 != 0 {
